@@ -131,6 +131,9 @@ where
         F: FnOnce(&T) -> R,
     {
         loop {
+            #[cfg(folo_verif)]
+            crate::verif::point("rc.try_read");
+
             // If the read fails, we get our `f` callback returned back to us.
             match regional_state.try_with_value(f) {
                 Ok(result) => return result,
@@ -144,6 +147,9 @@ where
                 // Note that other threads in the region may also be racing to initialize. While
                 // there is mutual exclusion built in, it remains up to us here to detect ordering
                 // issues and reinitialize if an outdated value was set.
+                #[cfg(folo_verif)]
+                crate::verif::point("rc.load_latest");
+
                 let initial_value = self.global_state.latest_value.load();
 
                 let expected_generation = initial_value.generation;
@@ -237,6 +243,9 @@ where
 
         // The first thing we do is update the latest value in the global state. This ensures that
         // any new regional states that get initialized will get our latest updated value.
+        #[cfg(folo_verif)]
+        crate::verif::point("rc.set.latest");
+
         self.global_state
             .latest_value
             .store(Arc::new(GenerationValue { generation, value }));
@@ -372,7 +381,16 @@ where
     }
 
     fn invalidate_regions(&self) {
+        #[cfg(folo_verif)]
+        let mut verif_index = 0_u64;
+
         for slot in &self.regional_states {
+            #[cfg(folo_verif)]
+            {
+                crate::verif::point_at("rc.inv", verif_index);
+                verif_index = verif_index.wrapping_add(1);
+            }
+
             // If it is already `None`, it will already get initialized on the next access.
             // It might already be in the process of being initialized by another thread, which
             // is fine - once initialized, it will by default be in the invalidated state.
@@ -463,6 +481,9 @@ where
         // and wait for them to finish before we do anything.
 
         loop {
+            #[cfg(folo_verif)]
+            crate::verif::point("rc.init.load");
+
             let reader = self.value.load();
 
             if let Some(ref value) = *reader {
@@ -470,6 +491,9 @@ where
 
                 match &**value {
                     RegionalValue::Initializing(manual_reset_event) => {
+                        #[cfg(folo_verif)]
+                        crate::verif::block_until("rc.init.wait", &|| manual_reset_event.wait0());
+
                         manual_reset_event.wait();
                         // Initialization by someone else has completed.
                         // Loop back and try to read again to see what we got.
@@ -484,6 +508,9 @@ where
             // Nothing is happening. We may be the first to start initializing.
             let attempt_signal = Arc::new(ManualResetEvent::new(EventState::Unset));
             let attempt = RegionalValue::<T>::Initializing(Arc::clone(&attempt_signal));
+
+            #[cfg(folo_verif)]
+            crate::verif::point("rc.init.cas");
 
             let previous_value = self.value.compare_and_swap(reader, Some(Arc::new(attempt)));
 
@@ -510,6 +537,9 @@ where
             // detect this in the caller by checking (after initialization) whether
             // the value that was set is of the expected generation. If not, everything
             // starts all over again for the current thread and it tries to re-initialize.
+
+            #[cfg(folo_verif)]
+            crate::verif::point("rc.init.store");
 
             self.value.store(Some(Arc::new(new_value)));
 
